@@ -345,13 +345,18 @@ def cfg_bits(f):
 def gen_lean(f):
     tf = lambda v: "true" if v else "false"
     good = f["simBoundInclusive"] and f["plotBoundInclusive"] and f["stepClockNormalised"] and f["sessionOriginEffective"]
-    head = ("import Bptk.Props.C05\n/-! GENERATED by harness/props/c05.py from /repo on every run — do not edit. -/\n"
+    head = ("import Bptk.Props.C05\nimport Bptk.Props.C01Grid\n/-! GENERATED by harness/props/c05.py from /repo on every run — do not edit. -/\n"
             "namespace Bptk.C05.Gen\n"
             f"def cfg : Cfg := {{ simBoundInclusive := {tf(f['simBoundInclusive'])}, "
             f"plotBoundInclusive := {tf(f['plotBoundInclusive'])}, stepClockNormalised := {tf(f['stepClockNormalised'])}, "
             f"sessionOriginEffective := {tf(f['sessionOriginEffective'])} }}\n")
     if good:
-        body = "theorem holds : C05_full cfg := C05_full_of_good cfg (by decide)\n#print axioms holds\n"
+        body = ("theorem holds : C05_full cfg := C05_full_of_good cfg (by decide)\n#print axioms holds\n"
+                "-- C01 x C05 bridge (Props/C01Grid): every evaluation time of a run is a label of this development's grid\n"
+                "theorem eval_times_are_labels (F : Fl) (G : Grid) (n : Nat) (r : Rat) (B : Budget F G (n + 1) r) (fuel : Nat)\n"
+                "    (hf : n + 2 ≤ fuel) (t : Rat) (h : Bptk.C01.EvalTime cfg F G n fuel t) :\n"
+                "    ∃ k : Nat, k ≤ n ∧ t = label F G (k : Int) := Bptk.C01.evalTime_label cfg (by decide) F G n r B fuel hf t h\n"
+                "#print axioms eval_times_are_labels\n")
     else:
         body = ""
         if not f["stepClockNormalised"]:
@@ -367,6 +372,7 @@ def gen_lean(f):
             body += ("theorem violated_sessionOrigin : ¬ C05_full cfg := C05_witness_sessionOrigin cfg (by decide)\n"
                      "#print axioms violated_sessionOrigin\n")
         body += "#print axioms C05_partial\n"
+    body += "#print axioms Bptk.C01.C01_full_decimal_dt\n#print axioms Bptk.C01.stock_euler_decimal\n"
     return head + body + "end Bptk.C05.Gen\n"
 
 
@@ -438,7 +444,7 @@ def run(chk):
     facts = probe()
     chk.notes["cfg"] = {k: v for k, v in facts.items()}
     cb = cfg_bits(facts)
-    ok, why = chk.prove(gen_lean(facts))
+    ok, why = chk.prove(gen_lean(facts), extra_sources=["Bptk/Props/C01Grid.lean"])
     chk.cov["trusted_base"] = [
         "Lean 4.33 kernel; axioms propext, Classical.choice, Quot.sound (audited per run via #print axioms); `decide +kernel` on Float literals only in the two Float witnesses",
         "hand-written model lean/Bptk/Core/C05.lean of util.floating_point (precision_and_scale, normalize, timerange), Model.memoize key and evaluation AT the key (TIME, thresholds, the stock recursion t <= starttime / t-dt), SdSimulation.__simulate / Element.plot bound, bptk.run_step clock; tied to /repo by three probes and the exhaustive lattice correspondence of this check",
